@@ -1,6 +1,6 @@
 (* C01 — property theorems about exception-flow skeletons (generic, proved once). *)
 From Coq Require Import List ZArith.
-From S2T Require Import C01.Exn C01.ExnProofs C01.Loops C01.LoopsProofs.
+From S2T Require Import C01.Exn C01.ExnProofs C01.Loops C01.LoopsProofs C01.LoopsXls.
 
 (* the abstract interpretation over-approximates the relational semantics: whatever exception kind
    can escape a statement run at top level is in esc *)
@@ -65,3 +65,17 @@ Example C01_loops_nonvacuous :
      = Some [(1000, 0, true, 0, 16); (4000, 0, false, 8, 16)]%Z.
 Proof. vm_compute. split; reflexivity. Qed.
 Print Assumptions C01_loops_nonvacuous.
+
+(* xls_extractor._extract_images_from_workbook: the BLIP record walk terminates on every byte string ... *)
+Theorem C01_xls_blips_terminates :
+  forall (d : list Z) (off : Z), bytes_ok d = true -> (0 <= off)%Z -> xls_blips (fuel_for d off) d off <> None.
+Proof. exact xls_blips_terminates. Qed.
+Print Assumptions C01_xls_blips_terminates.
+
+(* ... and every slice it hands to the image sniffers is non-empty and lies inside the stream, behind its record header *)
+Theorem C01_xls_blips_in_bounds :
+  forall (d : list Z) (fuel : nat) (off : Z) (rs : list blip),
+    bytes_ok d = true -> (0 <= off)%Z -> xls_blips fuel d off = Some rs ->
+    forall o t s e, In (o, t, s, e) rs -> (off <= o /\ o + 8 < s /\ s < e /\ e <= len d)%Z.
+Proof. intros d fuel off rs Hb Ho. exact (xls_blips_bounds d Hb fuel off rs Ho). Qed.
+Print Assumptions C01_xls_blips_in_bounds.
